@@ -624,3 +624,51 @@ def r_reject(run, F, rule="R-REJECT"):
                    "%d distinct condition(s) lead to Err(%s) here, %d reviewed: %s - an unreviewed rejection may refuse well-formed input" % (len(conds), h, lim, sorted(conds)[:4]),
                    site(b), key="%s|%s|%s" % (rule, fn, h))
     return n
+
+
+def r_token(run, F, rule="R-TOKEN"):
+    """Each value tag is followed by exactly one name element and one value element, whatever the tag: the front ends' parse_value
+    reads name then value on every path and hands both, unmodified, to the state machine with the tag it was given."""
+    n = 0
+    for fn, rd, st in (("ipp::parser::IppParser::<R>::parse_value", "ipp::reader::IppReader::<R>::", "ipp::parser::ParserState::parse_value"),
+                       ("ipp::parser::AsyncIppParser::<R>::parse_value", "ipp::reader::AsyncIppReader::<R>::", "ipp::parser::ParserState::parse_value")):
+        b = F.body(fn)
+        if b is None:
+            if "Async" in fn and not async_on(F):
+                continue
+            run.anchor_lost(rule, fn)
+            continue
+        for p in paths_of(b):
+            reads = [t for t in p.trace if is_call(t) and t[1].startswith(rd)]
+            names = [t[1][len(rd):] for t in reads]
+            if p.kind == "try":
+                ok = names in (["read_name"], ["read_name", "read_value"])
+                run.ob(rule, "%s: error exits come from the two element reads, in order" % fn.split("::")[-2], ok or any(is_call(t, st) for t in p.trace), "reads %s" % names, site(b),
+                       key="%s|%s|error-path-reads" % (rule, fn))
+                continue
+            n += 1
+            calls = [t for t in p.trace if is_call(t, st)]
+            ok = names == ["read_name", "read_value"] and len(calls) == 1
+            if ok:
+                a = calls[0][2]
+                strip_ = lambda x: x[1] if (isinstance(x, tuple) and x[0] in ("ok?", "await")) else x
+                def core(x):
+                    while isinstance(x, tuple) and x[0] in ("ok?", "await"):
+                        x = x[1]
+                    return x
+                ok = a[1] == ("var", b["params"][1].get("name")) and core(a[2]) is not None and is_call(core(a[2]), rd + "read_name") and is_call(core(a[3]), rd + "read_value")
+            run.ob(rule, "%s: every value tag is followed by one name read and one value read, both handed to the state machine" % fn.split("::")[-2], ok,
+                   "reads on the path: %s; state-machine calls: %d [%s] (an element that is not read leaves its bytes in the stream: everything after it is misread)" % (
+                       names, len(calls), " && ".join(cshow(c) for c in p.conds)[-160:]), site(b), key="%s|%s|name-value" % (rule, fn))
+    return n
+
+
+def r_trace_display(run, F):
+    """The parser formats every decoded value in a trace!() call: a Display that can panic on decoded text (byte-offset slices, unwraps, explicit
+    panics) makes the parser abort on a well-formed message whenever a logger accepts trace records. R-GUARD's clauses for that, over the parse cone."""
+    import os
+    from . import guardrules as gr
+    from .engine import VERIF, Only, load_json
+    TP = load_json(os.path.join(VERIF, "tables", "panic.json"))
+    g = gr.call_graph(F)
+    gr.r_guard(Only(run, "|text slice of", "|panic|", "|unwrap|", "|length guard of", "|subtraction|", "|addition|"), F, TP, gr.cone(g, gr.PARSE_ROOTS))
